@@ -144,6 +144,7 @@ class Ctx:
         self.names = {}
         self.notes = []
         self.choices = []  # record of concrete choices on this path (name, value)
+        self.concretize_divisors = False  # symbolic Int divisors of // and % are forked over their values
 
     # -- symbolic inputs (same name => same constant on every re-execution)
     def real(self, name):
@@ -229,6 +230,44 @@ class Ctx:
                 taken = False
             else:
                 raise PathAbort()
+            self.pos += 1
+        lit = c if taken else z3.Not(c)
+        self.pc.append(lit)
+        self.solver.add(lit)
+        return taken
+
+    def concretize(self, e, limit=4096):
+        """fork over the feasible concrete values of an Int term (bounded by the path condition)"""
+        es = _simp(e)
+        if z3.is_int_value(es):
+            return es.as_long()
+        for _ in range(limit):
+            if self.pos < len(self.decisions):
+                # replaying: the value tried at this decision was recorded with it
+                v = self.decisions[self.pos][2]
+            else:
+                t0 = time.time()
+                r = self.solver.check()
+                STATS.feas_queries += 1
+                STATS.feas_s += time.time() - t0
+                if r == z3.unsat:
+                    raise PathAbort()
+                if r != z3.sat:
+                    raise Inconclusive('concretize: solver unknown')
+                v = self.solver.model().eval(es, model_completion=True).as_long()
+            if self._branch_val(es == v, v):
+                return v
+        raise Inconclusive('concretize: more than %d values' % limit)
+
+    def _branch_val(self, c, v):
+        """branch(c) that remembers the concrete value v tried at this decision (for replay)"""
+        if self.pos < len(self.decisions):
+            taken = self.decisions[self.pos][0]
+            self.pos += 1
+        else:
+            can_f = self._check(z3.Not(c))
+            self.decisions.append([True, not can_f, v])
+            taken = True
             self.pos += 1
         lit = c if taken else z3.Not(c)
         self.pc.append(lit)
@@ -405,6 +444,8 @@ class Sym:
         a, b, ints = _coerce(a, b)
         if ints:
             bs = _simp(b)
+            if not z3.is_int_value(bs) and Ctx.cur is not None and Ctx.cur.concretize_divisors:
+                bs = b = z3.IntVal(Ctx.cur.concretize(bs))  # fork over the divisor's feasible values: keeps the arithmetic linear
             if z3.is_int_value(bs) and bs.as_long() > 0:
                 return a / b
             return z3.If(b > 0, a / b, (-a) / (-b))
@@ -425,6 +466,8 @@ class Sym:
         ta, tb, ints = _coerce(a, b)
         if ints:
             bs = _simp(tb)
+            if not z3.is_int_value(bs) and Ctx.cur is not None and Ctx.cur.concretize_divisors:
+                bs = tb = z3.IntVal(Ctx.cur.concretize(bs))
             if z3.is_int_value(bs) and bs.as_long() > 0:
                 return ta % tb
         return ta - tb * Sym._floordiv(ta, tb)
@@ -520,6 +563,12 @@ class Sym:
 
     def __bool__(self):
         return ctx().branch(self.e != 0)
+
+    def __index__(self):
+        """a symbolic int used as an index / range bound: fork over its feasible values"""
+        if not self.is_int:
+            raise TypeError('symbolic float used as an index')
+        return ctx().concretize(self.e)
 
     # -- rounding family (math.floor/ceil/trunc and round() return what we return)
     def __floor__(self):
@@ -672,6 +721,8 @@ _UFUNC.update({
     np.isfinite: lambda a: True,
     np.logical_and: _logical(z3.And),
     np.logical_or: _logical(z3.Or),
+    np.exp: lambda a: Sym(uf('exp')(real(a))),
+    np.log: lambda a: Sym(uf('log')(real(a))),
 })
 
 
@@ -845,10 +896,125 @@ class MathShim:
 
 MATH = MathShim()
 
+_UF = {}
+
+
+def uf(name):
+    """uninterpreted unary real function shared by all engines (exp, log, sin, ...)"""
+    if name not in _UF:
+        _UF[name] = z3.Function('fn_' + name, z3.RealSort(), z3.RealSort())
+    return _UF[name]
+
+
+def sym_uf(name):
+    pyf = getattr(math, name)
+
+    def f(x):
+        if isinstance(x, Sym):
+            return Sym(uf(name)(real(x)))
+        return pyf(x)
+    return f
+
+
+def sym_interp(x, xp, fp):
+    """np.interp for scalar x with (possibly symbolic) x / break points / values: ite chain"""
+    xp, fp = list(xp), list(fp)
+    if not any(isinstance(v, Sym) for v in [x] + xp + fp):
+        return float(np.interp(x, xp, fp))
+    out = real(fp[-1])
+    xr = real(x)
+    for i in range(len(xp) - 1, 0, -1):
+        x0, x1, f0, f1 = real(xp[i - 1]), real(xp[i]), real(fp[i - 1]), real(fp[i])
+        seg = f0 + (f1 - f0) * (xr - x0) / (x1 - x0)
+        out = z3.If(xr < x1, seg, out)
+    out = z3.If(xr <= real(xp[0]), real(fp[0]), out)
+    return Sym(_simp(out))
+
+
+def _has_sym(a):
+    if isinstance(a, (Sym, SymB)):
+        return True
+    if isinstance(a, np.ndarray):
+        return a.dtype == object and any(isinstance(v, (Sym, SymB)) for v in a.ravel())
+    if isinstance(a, (list, tuple)):
+        return any(_has_sym(v) for v in a)
+    if hasattr(a, 'dtype') and hasattr(a, 'values'):
+        return _has_sym(np.asarray(a.values, dtype=object)) if a.dtype == object else False
+    return False
+
+
+class NpShim:
+    """drop-in for the `numpy` module inside modules under test: functions that are not ufuncs"""
+    def __getattr__(self, n):
+        return getattr(np, n)
+
+    @staticmethod
+    def interp(x, xp, fp, *a, **kw):
+        xp = list(np.asarray(xp, dtype=object).ravel()) if not isinstance(xp, list) else xp
+        fp = list(np.asarray(fp, dtype=object).ravel()) if not isinstance(fp, list) else fp
+        if not (_has_sym(x) or _has_sym(xp) or _has_sym(fp)):
+            return np.interp(x, [float(v) for v in xp], [float(v) for v in fp], *a, **kw)
+        if hasattr(x, 'map') and hasattr(x, 'index'):  # pandas Series
+            return x.map(lambda v: sym_interp(v, xp, fp))
+        if isinstance(x, np.ndarray) and x.ndim > 0:
+            out = np.empty(x.shape, dtype=object)
+            for idx in np.ndindex(x.shape):
+                out[idx] = sym_interp(x[idx], xp, fp)
+            return out
+        return sym_interp(x, xp, fp)
+
+    @staticmethod
+    def round(x, decimals=0, out=None):
+        if isinstance(x, Sym):
+            return x.round(decimals)
+        return np.round(x, decimals)
+
+    around = round
+
+    @staticmethod
+    def array(obj, dtype=None, **kw):
+        if _has_sym(obj) and dtype in (None, float, np.float64):
+            return np.array(obj, dtype=object, **kw)
+        return np.array(obj, dtype=dtype, **kw)
+
+    @staticmethod
+    def isnan(x):
+        if isinstance(x, Sym):
+            return False
+        if _has_sym(x):
+            return np.zeros(np.shape(x), dtype=bool)
+        return np.isnan(x)
+
+    @staticmethod
+    def isclose(a, b, rtol=1e-05, atol=1e-08, equal_nan=False):
+        if isinstance(a, Sym) or isinstance(b, Sym):
+            return abs(a - b) <= (atol + rtol * abs(b))
+        return np.isclose(a, b, rtol=rtol, atol=atol, equal_nan=equal_nan)
+
+
+NP = NpShim()
+
+
+def install_pandas_shim():
+    """pandas' reductions on object dtype insist on float()/complex() of the running sum; let proxies through"""
+    import pandas.core.nanops as nanops
+    if getattr(nanops._ensure_numeric, '_vf', False):
+        return
+    orig = nanops._ensure_numeric
+
+    def _ensure_numeric(x):
+        if isinstance(x, Sym):
+            return x
+        if isinstance(x, np.ndarray) and x.dtype == object and any(isinstance(v, Sym) for v in x.ravel()):
+            return x
+        return orig(x)
+    _ensure_numeric._vf = True
+    nanops._ensure_numeric = _ensure_numeric
+
 
 def install_shims(module, names=('int', 'float', 'isinstance', 'math')):
     """inject polymorphic builtins into a module's globals; returns an undo function"""
-    table = {'int': SInt, 'float': SFloat, 'isinstance': s_isinstance, 'math': MATH,
+    table = {'int': SInt, 'float': SFloat, 'isinstance': s_isinstance, 'math': MATH, 'np': NP, 'numpy': NP,
              'abs': abs, 'round': round, 'min': s_min, 'max': s_max}
     saved = {}
     for n in names:
